@@ -6,6 +6,7 @@ EXTENDS Session, TLC, Json, IOUtils
 
 P == INSTANCE Pipeline
 R == INSTANCE Recon
+RF == INSTANCE Reflow
 LineCommentKindsS == {"Comment(InlineLine)", "Comment(IndividualLine)"}
 
 Rec == ndJsonDeserialize(IOEnv.TRACE)
@@ -48,6 +49,13 @@ StageViolations(r) ==
            /\ r.cfg.tw * r.cfg.ci <= 255
         THEN {<<"C01", "reconstruct">>} ELSE {})
 
+\* --- the recorded second pass against Reflow.tla: the number of top-level lines queued for re-wrapping is the number of
+\* distinct top-level ancestors of the lines that hold a rewritten literal
+ReflowDrift(r) ==
+  LET q == r.reflow IN
+  IF \E k \in 1..Len(q.rewritten) : q.rewritten[k] < 1 \/ q.rewritten[k] > Len(q.line_of_tok) THEN {"reflow_token"}
+  ELSE IF RF!ExpectedReflowCount(q.parents, q.line_of_tok, RangeOf(q.rewritten)) # q.n THEN {"reflow_queue"} ELSE {}
+
 CallViolations(e) ==
   LET r == e.c IN
   IF ~r.ok THEN {<<"C04", "panic">>}
@@ -84,6 +92,8 @@ TraceCall == /\ IsEvent("Call")
                 \A v \in vs : Report("VIOL", [sid |-> Rec[l].sid, call |-> Len(calls) + 1, prop |-> v[1], clause |-> v[2]])
              /\ ("stages" \in DOMAIN Rec[l].c) => \A d \in StageDrift(Rec[l].c) : Report("DRIFT", [sid |-> Rec[l].sid, module |-> "Pipeline", clause |-> d])
              /\ ("stages" \in DOMAIN Rec[l].c) => Report("STAGES", [sid |-> Rec[l].sid])
+             /\ ("reflow" \in DOMAIN Rec[l].c) => \A d \in ReflowDrift(Rec[l].c) : Report("DRIFT", [sid |-> Rec[l].sid, module |-> "Reflow", clause |-> d])
+             /\ ("reflow" \in DOMAIN Rec[l].c) => Report("REFLOW", [sid |-> Rec[l].sid, rewritten |-> Len(Rec[l].c.reflow.rewritten), queued |-> Rec[l].c.reflow.n])
              /\ Report("OK", [sid |-> Rec[l].sid, call |-> Len(calls) + 1])
 
 TraceRel == /\ IsEvent("Rel")
